@@ -13,6 +13,13 @@ from . import xl, xlerrors, xlcriteria, func_xltypes
 rand = np.random.rand
 
 
+def _finite(result):
+    """Excel has no infinity: a result beyond the largest number is #NUM!"""
+    if not np.isfinite(result):
+        raise xlerrors.NumExcelError('result is too large')
+    return result
+
+
 @xl.register()
 @xl.validate_args
 def ABS(
@@ -173,7 +180,7 @@ def COSH(
     https://support.office.com/en-us/article/
         cosh-function-e460d426-c471-43e8-9540-a57ff3b70555
     """
-    return np.cosh(float(number))
+    return _finite(np.cosh(float(number)))
 
 
 @xl.register()
@@ -186,7 +193,7 @@ def DEGREES(
     https://support.office.com/en-us/article/
         degrees-function-4d6ec4db-e694-4b94-ace0-1cc3f61f9ba1
     """
-    return np.degrees(float(angle))
+    return _finite(np.degrees(float(angle)))
 
 
 @xl.register()
@@ -219,7 +226,7 @@ def EXP(
     https://support.office.com/en-us/article/
         exp-function-c578f034-2c45-4c37-bc8c-329660a63abe
     """
-    return np.exp(float(number))
+    return _finite(np.exp(float(number)))
 
 
 @xl.register()
@@ -234,6 +241,8 @@ def FACT(
     """
     if number < 0:
         raise xlerrors.NumExcelError('Negative values are not allowed')
+    if number >= 171:
+        raise xlerrors.NumExcelError('result is too large')
 
     return math.factorial(int(number))
 
@@ -250,6 +259,8 @@ def FACTDOUBLE(
     """
     if number < 0:
         raise xlerrors.NumExcelError('Negative values are not allowed')
+    if number >= 301:
+        raise xlerrors.NumExcelError('result is too large')
 
     return factorial2(int(number), exact=True)
 
